@@ -350,69 +350,21 @@ fn imports(m: &Model, ctx: &mut Ctx) {
         return;
     };
     ctx.func(&gm.key);
-    let quotes = model::macros_named(&gm.block, "quote");
-    let use_q: Vec<_> = quotes.iter().filter(|q| {
-        let c = quotex::canon(&quotex::parse_quote_body(&q.tokens));
-        c.starts_with("use super")
-    }).collect();
-    ctx.oblige("C12.imports", "rasn-use-template", true);
-    if use_q.len() != 1 {
-        ctx.violate("C12.imports", "rasn-use-template-count", &gm.file, gm.line, &format!("expected exactly one `use super::..` template in Rasn::generate_module, found {}", use_q.len()));
-    } else {
-        let c = quotex::canon(&quotex::parse_quote_body(&use_q[0].tokens)).replace(' ', "");
-        let want = "usesuper::#module::{#(#used_imports),*};";
-        if c != want {
-            ctx.violate("C12.imports", "rasn-use-template-shape", &gm.file, span_line(use_q[0]),
-                &format!("import template is `{}`, expected `{}`: each IMPORTS clause becomes one use declaration of exactly the imported symbols from the sibling module", c, want));
-        }
-        ctx.sample(json!({"rasn_use_template": c}));
-    }
-    // bindings of `module` and the pushes per symbol kind
-    let body = tok(&gm.block);
-    ctx.oblige("C12.imports", "rasn-module-mangler", true);
-    if !body.contains("let module=self.to_rust_snake_case(&import.global_module_reference.module_reference)") {
-        ctx.violate("C12.imports", "rasn-module-mangler", &gm.file, gm.line,
-            "the imported module's Rust name must be to_rust_snake_case(module_reference) — the same mangling generate_module applies to the module's own name");
-    }
-    ctx.oblige("C12.imports", "rasn-own-module-mangler", true);
-    if !body.contains("let name=self.to_rust_snake_case(&module.name)") {
-        ctx.violate("C12.imports", "rasn-own-module-mangler", &gm.file, gm.line, "the module's own `pub mod` name must be to_rust_snake_case(module.name)");
-    }
-    // if/else-if chain over `usage`
-    struct C {
-        out: Vec<(String, String, usize)>,
-    }
-    impl model::DeepCb for C {
-        fn expr(&mut self, e: &syn::Expr) {
-            if let syn::Expr::If(i) = e {
-                let c = tok(&i.cond);
-                if c.contains("usage") {
-                    self.out.push((c, tok(&i.then_branch), i.if_token.span.start().line));
-                }
+    // the closure that renders one IMPORTS clause is evaluated (= C01.imports): `use super::<snake(module)>::{..}` with
+    // every symbol through the mangler of its kind, or the wildcard
+    crate::rules::c01::import_lists(m, ctx, "C12.imports");
+    // the module's own `pub mod` name goes through the same mangler as the names it is imported under
+    {
+        let mut ok = false;
+        for mc in model::method_calls_in(&gm.block) {
+            if mc.method == "to_rust_snake_case" && mc.args.first().map(|a| { let t = tok(a); t.ends_with(".name") && !t.contains("import") }).unwrap_or(false) {
+                ok = true;
             }
         }
-    }
-    let mut c = C { out: vec![] };
-    model::deep_walk_block(&gm.block, &mut c);
-    let mut seen_lower = false;
-    let mut seen_upper = false;
-    for (cond, then, line) in &c.out {
-        if cond.contains("is_lowercase") && cond.contains("starts_with") {
-            seen_lower = true;
-            ctx.oblige("C12.imports", "rasn-value-symbol-case", true);
-            if !then.contains("to_rust_const_case(usage)") {
-                ctx.violate("C12.imports", "rasn-value-symbol-case", &gm.file, *line, "an imported value reference (lower-case initial) must be listed under its const-case name, the name value assignments are generated with");
-            }
-        } else if cond.contains("is_uppercase") && cond.contains("starts_with") {
-            seen_upper = true;
-            ctx.oblige("C12.imports", "rasn-type-symbol-case", true);
-            if !then.contains("to_rust_title_case(usage)") {
-                ctx.violate("C12.imports", "rasn-type-symbol-case", &gm.file, *line, "an imported type reference (upper-case initial) must be listed under its title-case name, the name type assignments are generated with");
-            }
+        ctx.oblige("C12.imports", "rasn-own-module-mangler", true);
+        if !ok {
+            ctx.violate("C12.imports", "rasn-own-module-mangler", &gm.file, gm.line, "the module's own `pub mod` name must be to_rust_snake_case(<module>.name), the mangling its importers apply to the module reference");
         }
-    }
-    if !seen_lower || !seen_upper {
-        ctx.violate("C12.imports", "rasn-symbol-kinds", &gm.file, gm.line, "the import loop must distinguish value references (lower-case initial) and type references (upper-case initial)");
     }
     // ---- qualified references ----
     if let Some(f) = anchor_fn(m, ctx, "C12.imports", Some("Rasn"), "to_rust_qualified_type", None) {
